@@ -16,6 +16,9 @@ pub enum Op {
     AssumeInit { h: Id },
     Clone { h: Id, d: Id },
     Drop { h: Id },
+    /// `dst.clone_from(&src)`: handle `dst` is overwritten with a clone of `src`, its old
+    /// target loses a handle.
+    CloneFrom { dst: Id, src: Id },
     /// Move program handle `h` into the value of the object `owner` points to;
     /// `adopt` first calls `adopt_unchecked(&owner, &h)`.
     Store { h: Id, owner: Id, adopt: bool },
@@ -64,6 +67,7 @@ impl Op {
             Op::AssumeInit { .. } => "AssumeInit",
             Op::Clone { .. } => "Clone",
             Op::Drop { .. } => "Drop",
+            Op::CloneFrom { .. } => "CloneFrom",
             Op::Store { .. } => "Store",
             Op::Take { .. } => "Take",
             Op::Adopt { .. } => "Adopt",
@@ -99,6 +103,7 @@ impl Op {
             Op::AssumeInit { h } => vec![h],
             Op::Clone { h, d } => vec![h, d],
             Op::Drop { h } => vec![h],
+            Op::CloneFrom { dst, src } => vec![dst, src],
             Op::Store { h, owner, adopt } => vec![h, owner, adopt as Id],
             Op::Take { owner, slot, unadopt } => vec![owner, slot, unadopt as Id],
             Op::Adopt { owner, target } => vec![owner, target],
@@ -147,6 +152,7 @@ impl Op {
             "AssumeInit" => { need(1)?; Op::AssumeInit { h: a[0] } }
             "Clone" => { need(2)?; Op::Clone { h: a[0], d: a[1] } }
             "Drop" => { need(1)?; Op::Drop { h: a[0] } }
+            "CloneFrom" => { need(2)?; Op::CloneFrom { dst: a[0], src: a[1] } }
             "Store" => { need(3)?; Op::Store { h: a[0], owner: a[1], adopt: a[2] != 0 } }
             "Take" => { need(3)?; Op::Take { owner: a[0], slot: a[1], unadopt: a[2] != 0 } }
             "Adopt" => { need(2)?; Op::Adopt { owner: a[0], target: a[1] } }
@@ -224,11 +230,15 @@ pub struct Faults {
     /// Destructor positions at which the destructor panics at its start (what it owns
     /// is released during the unwind).
     pub panic_early_at: Vec<u32>,
+    /// Like `panic_early_at`, and the panic payload carries the strong handles the dying
+    /// value stored out of the teardown; the program drops the payload after the call
+    /// has unwound.
+    pub panic_carry_at: Vec<u32>,
 }
 
 impl Faults {
     pub fn is_empty(&self) -> bool {
-        self.panic_at.is_empty() && self.scripts.is_empty() && self.inline.is_empty() && self.clone_panic_at.is_empty() && self.panic_early_at.is_empty()
+        self.panic_at.is_empty() && self.scripts.is_empty() && self.inline.is_empty() && self.clone_panic_at.is_empty() && self.panic_early_at.is_empty() && self.panic_carry_at.is_empty()
     }
     pub fn text(&self) -> String {
         let mut parts = vec![];
@@ -240,6 +250,9 @@ impl Faults {
         }
         for k in &self.panic_early_at {
             parts.push(format!("earlypanic {k}"));
+        }
+        for k in &self.panic_carry_at {
+            parts.push(format!("carrypanic {k}"));
         }
         for (k, ops) in &self.scripts {
             parts.push(format!("script {k}:{}", ops.iter().map(|o| o.text()).collect::<Vec<_>>().join(",")));
@@ -253,6 +266,8 @@ impl Faults {
                 f.panic_at.push(k.trim().parse().map_err(|e| format!("{part}: {e}"))?);
             } else if let Some(k) = part.strip_prefix("earlypanic ") {
                 f.panic_early_at.push(k.trim().parse().map_err(|e| format!("{part}: {e}"))?);
+            } else if let Some(k) = part.strip_prefix("carrypanic ") {
+                f.panic_carry_at.push(k.trim().parse().map_err(|e| format!("{part}: {e}"))?);
             } else if let Some(k) = part.strip_prefix("clonepanic ") {
                 f.clone_panic_at.push(k.trim().parse().map_err(|e| format!("{part}: {e}"))?);
             } else if let Some(rest) = part.strip_prefix("script ") {
